@@ -38,6 +38,16 @@ CLAIMED["C17"] = dict(
     technique="symbolic execution of the real selection code on an SMT string variable; branch feasibility and obligations decided by cvc5 1.0 / z3 (QF_SLIA), counterexample names replayed on the real API",
     ref="4/C17")
 
+CLAIMED["C19"] = dict(
+    text="Bounded symbolic model checking of api.write_input -> inputs.gaussian/orca -> write_input_base: coordinates, charge and spin polarisation are symbolic reals (charge/spin also derived from orbitals with symbolic occupations), they travel through str.format as placeholder tokens; an independent template-driven parser reads the written text and z3 proves, per path, one geometry line per atom in order with the reference element symbol, coordinate = x/angstrom (CODATA, 1e-7), charge = nearest integer, multiplicity = nearest integer of |spinpol| + 1, documented defaults, run-type keywords, precedence of keyword fields, FileFormatError / WriteInputError classes.",
+    note="1, 2 and 40 (thorough 200) atoms with two symbolic probe atoms; coordinates assumed to fit the 10.6f column; digit-level rounding idealised.",
+    ref="4/C19")
+CLAIMED["C18"] = dict(
+    text="Symbolic execution of __main__.convert with the four API functions replaced by uninterpreted functions: for all file names, optional formats and both boolean flags z3 (EUF) proves the single effect term equal to dump_x(load_x(in, fmt=i), out, allow_changes=c, fmt=o); main() over all 16 option subsets x spellings x argument orders reaches the same composition; API exceptions escape convert() and no dump follows a failed load.",
+    note="Subprocess, exit-status mapping and argparse internals trusted; byte equality of output relies additionally on C16/C08.",
+    technique="symbolic execution of the real convert()/main() with the API as uninterpreted functions; equality of effect terms decided by z3 (EUF)",
+    ref="4/C18")
+
 NOT_YET = "check not built yet in this round (planned, see DESIGN.md section 4)"
 NA = {}
 
